@@ -570,10 +570,34 @@ def rule_r6(ctx) -> List[R.Inst]:
             if cnt in counts and st == f"self.stackers[{ix}][{key_p}]={val_p}.iloc[{ix}]":
                 good = True
                 idiom6 = f"for n in range({cnt}): stackers[n][key] = value.iloc[n]: row n -> chart n"
-    insts.append(R.ok("C12.R6", "MapSet.Stacker.__setitem__", file, line, idiom=idiom6) if good else
-                 R.viol("C12.R6", "MapSet.Stacker.__setitem__", file, line,
-                        "rows of the assigned frame are not paired positionally with the per-chart stackers",
-                        construct=unparse(loops[0])[:160] if loops else "no loop"))
+    recognised = good or (len(loops) == 1 and isinstance(loops[0].iter, ast.Call) and unparse(loops[0].iter.func) in ("zip", "range"))
+    if not good:
+        # cursor form: for k, s in enumerate(self.stackers): row = value.iloc[k] (IndexError: no more rows -> stop); s[key] = row
+        fn3 = M.nfn(q, subst=True)
+        for lp in [n for n in walk_no_nested(fn3.node) if isinstance(n, ast.For)]:
+            if isinstance(lp.iter, ast.Call) and unparse(lp.iter.func) == "enumerate" and len(lp.iter.args) == 1 and not lp.iter.keywords and \
+                    unparse(lp.iter.args[0]) == "self.stackers" and isinstance(lp.target, ast.Tuple) and len(lp.target.elts) == 2 and \
+                    all(isinstance(t, ast.Name) for t in lp.target.elts):
+                k_, s_ = lp.target.elts[0].id, lp.target.elts[1].id
+                stores = [x for x in ast.walk(lp) if isinstance(x, ast.Assign) and len(x.targets) == 1 and isinstance(x.targets[0], ast.Subscript) and
+                          unparse(x.targets[0]).replace(" ", "") == f"{s_}[{key_p}]"]
+                rowdefs = {x.targets[0].id: x.value for x in ast.walk(lp) if isinstance(x, ast.Assign) and len(x.targets) == 1 and isinstance(x.targets[0], ast.Name)}
+                if len(stores) == 1:
+                    v_ = stores[0].value
+                    v_ = rowdefs.get(v_.id, v_) if isinstance(v_, ast.Name) else v_
+                    recognised = True
+                    if unparse(v_).replace(" ", "") == f"{val_p}.iloc[{k_}]":
+                        good = True
+                        idiom6 = f"for k, s in enumerate(stackers): s[key] = value.iloc[k]: row k -> chart k"
+    if good:
+        insts.append(R.ok("C12.R6", "MapSet.Stacker.__setitem__", file, line, idiom=idiom6))
+    elif recognised:
+        insts.append(R.viol("C12.R6", "MapSet.Stacker.__setitem__", file, line,
+                            "rows of the assigned frame are not paired positionally with the per-chart stackers",
+                            construct=unparse(loops[0])[:160] if loops else "no loop"))
+    else:
+        insts.append(R.undec("C12.R6", "MapSet.Stacker.__setitem__", file, line,
+                             "how the rows of the assigned frame are dealt out to the per-chart stackers was not recognised"))
     return insts
 
 
